@@ -142,7 +142,7 @@ LABELS = {1: [['only']], 2: [[0, 1], ['b', 'a']], 3: [[0, 1, 2], ['c', 'a', 'b']
 
 def make(S=2, dz=1, pal=0, supp='box', wass=False, ex='none', pr='free', okind='minsup_E', ny=1, ypart=None, mask=None,
          xpart=None, rows='basic', att=None, labels=0, supp_decl='each', ex_decl='auto', ydecl='tail', style='A',
-         adapt_style='entry'):
+         adapt_style='entry', pwoff=None):
     P = PALETTES[pal]
     d = dz + (1 if wass else 0)
     pad = [0.0] * (d - dz)
@@ -225,6 +225,17 @@ def make(S=2, dz=1, pal=0, supp='box', wass=False, ex='none', pr='free', okind='
         m0 = mask[0]
         R.append({'ax': [0.0, -1.0], 'by': [1.0] + [0.0] * (ny - 1), 'cz': [-a * b for a, b in zip(q, m0)],
                   'c0': -0.5, 'sense': '=='})
+    if rows in ('Epw<=', 'Epw>=', 'Rpw<=', 'Rpw>='):
+        # piecewise rows:  (E) max(q.z - x0 - x1 - .25, .5 q.z - x1 - .5 [+ bi-affine], -x0 - .125) <= 0, or the mirrored minof >= 0
+        pcs = [{'ax': [-1.0, -1.0], 'cz': list(q), 'c0': -0.25},
+               {'ax': [0.0, -1.0], 'cz': [0.5 * a for a in q], 'c0': -0.5, 'Az': [[0.0, 0.25 * wi] for wi in w]},
+               {'ax': [-1.0, 0.0], 'c0': -0.125}]
+        if ny:
+            pcs[1]['by'] = [-0.5] + [0.0] * (ny - 1)
+        if rows.endswith('>='):
+            from .ro_specs import neg_piece
+            pcs = [neg_piece(pc) for pc in pcs]
+        R.append({'pieces': pcs, 'sense': rows[-2:], 'E': rows.startswith('E')})
     if rows == 'Ege':
         R.append({'ax': [1.0, 1.0], 'cz': [-a for a in q], 'c0': 0.25, 'sense': '>=', 'E': True})
     for r in R:
@@ -291,6 +302,9 @@ def make(S=2, dz=1, pal=0, supp='box', wass=False, ex='none', pr='free', okind='
     spec['tag'] = 'S%d|dz%d%s|%s|%s|%s|%s|ny%d|yp%s|m%s|%s|%s' % (
         S, dz, 'w' if wass else '', supp, ex, pr, okind, ny, ''.join(str(len(b)) for b in spec['ypart']),
         ''.join(str(v) for r in (mask or []) for v in r), rows, att or 'dflt')
+    if pwoff:
+        spec['pwoff'] = list(pwoff)
+        spec['tag'] += '|off:%s.%s.%s' % tuple(pwoff)
     return spec
 
 
@@ -396,6 +410,31 @@ def _gen(pal, thorough):
                         for okind in ('minsup_E', 'minsup_Epw'):
                             yield make(S=S, dz=dz, pal=pal, supp=supp, ex=ex, pr=pr, okind=okind,
                                        ny=0 if okind == 'minsup_Epw' else 1, rows='basic+E')
+    # Q5: piecewise rows  E(maxof(..)) <= 0 / E(minof(..)) >= 0 / maxof(..) <= 0 / minof(..) >= 0
+    for S in (1, 2, 3):
+        for rows in ('Epw<=', 'Epw>=', 'Rpw<=', 'Rpw>='):
+            for supp, ex, pr in (('box', 'none', 'fixed'), ('n1', 'allbox', 'box'), ('abs', 'sub0', 'free'),
+                                 ('tri', 'alleq', 'n1'), ('single', 'none', 'ninf')):
+                for ny in (0, 1):
+                    for att in (None, 'F2') + (('supp',) if rows[0] == 'R' else ()):
+                        for okind in ('minsup_E', 'min_det'):
+                            yield make(S=S, dz=1 + S % 2, pal=pal, supp=supp, ex=ex, pr=pr, rows=rows, ny=ny, att=att,
+                                       okind=okind, style='ABC'[S % 3])
+    # Q6: the same piecewise functions written with an offset / scaling / double negation, inside and outside E(.)
+    offs = [(hk, form, pos) for hk in ('const', 'x') for form in ('add', 'radd', 'sub', 'rsub') for pos in ('in', 'out')]
+    offs += [(hk, form, 'in') for hk in ('z', 'y') for form in ('add', 'radd', 'sub', 'rsub')]
+    offs += [('const', form, pos) for form in ('mul', 'neg') for pos in ('in', 'out')]
+    for S in (1, 2) + ((3,) if thorough else ()):
+        for off in offs:
+            for supp, ex, pr in (('box', 'allbox', 'box'), ('n1', 'sub0', 'free')):
+                for okind in ('minsup_Epw', 'maxinf_Epw', 'minsup_Rpw'):
+                    if okind.endswith('Rpw') and off[2] == 'out':
+                        continue
+                    yield make(S=S, dz=2, pal=pal, supp=supp, ex=ex, pr=pr, okind=okind, ny=1, pwoff=off)
+                for rows in ('Epw<=', 'Epw>=', 'Rpw<=', 'Rpw>='):
+                    if rows[0] == 'R' and off[2] == 'out':
+                        continue
+                    yield make(S=S, dz=2, pal=pal, supp=supp, ex=ex, pr=pr, rows=rows, ny=1, pwoff=off)
     # global support declaration
     for S in (2, 3):
         for supp in SUPPS:
